@@ -1063,7 +1063,7 @@ def _div_(a, b):
     division of a by b supporting presynching (inner join) of timeseries
     """
     if is_num(b):
-        return np.nan if b == 0 else a/b
+        return a * np.nan if b == 0 else a/b
     else:
         denom = b.copy()
         denom[denom == 0] = np.nan
